@@ -19,7 +19,7 @@ import (
 	"github.com/imroc/req/v3/verifharness/hk"
 )
 
-var syncers = map[string]hk.Gosyncer{"ResultState": syncResultState}
+var syncers = map[string]hk.Gosyncer{"ResultState": syncResultState, "EntryPoints": syncEntryPoints}
 
 type kctx struct {
 	vars   map[string]bool // identifiers standing for the status code
